@@ -10,6 +10,7 @@ kernel-checked witness.
 -/
 import MetricsVerif.Proofs.Recency
 import MetricsVerif.Proofs.GenRace
+import MetricsVerif.Proofs.PromIdle
 import MetricsVerif.Generated.SourceFacts
 import MetricsVerif.Proofs.SrcShapes
 
@@ -622,5 +623,109 @@ theorem src_generation_orderings :
     ∧ allRelease Generated.shape_generational_with_increment "gen.fetch_add" = true
     ∧ names Generated.shape_generational_get_generation = ["gen.load"]
     ∧ allAcquire Generated.shape_generational_get_generation "gen.load" = true := by decide
+
+/-- SOURCE FACT: every update method of `Generational<T>` (the three `impl …Fn for Generational<T>` blocks) is
+    exactly `self.with_increment(|x| x.<same method>(…))` — no method bumps the generation by hand (in another
+    order) or skips the bump, and `record_many` is not overridden, so it is the trait's default `n × record`
+    (the `recMany` operation of `Model/PromIdle.lean`, `Upd` of `Model/Recency.lean`). -/
+theorem src_generational_update_methods :
+    Generated.gen_update_methods =
+      ["CounterFn.increment:with_increment:increment", "CounterFn.absolute:with_increment:absolute",
+       "GaugeFn.increment:with_increment:increment", "GaugeFn.decrement:with_increment:decrement",
+       "GaugeFn.set:with_increment:set", "HistogramFn.record:with_increment:record"] := by decide
+
+/-- SOURCE FACT: the exporter derives the key of `distributions` the same way wherever it stores, shows or
+    removes a series: every `key_to_parts` call of `recorder.rs` passes `Some(&self.global_labels)` (the single
+    function `parts` of `Model/PromIdle.lean`; `prom_dropped_leaves_output` rests on the removal using it). -/
+theorem src_prom_key_to_parts_uniform :
+    Generated.prom_key_to_parts_defaults =
+      ["Some(&self.global_labels)", "Some(&self.global_labels)", "Some(&self.global_labels)",
+       "Some(&self.global_labels)"] := by decide
+
+/-! ## the exporter: an expired histogram leaves the OUTPUT as well (`Model/PromIdle.lean`)
+
+The Prometheus exporter keeps the drained samples of a histogram in its own map `distributions`, keyed by
+`key_to_parts(key, Some(global_labels))`; the registry entry is only the not-yet-drained bucket.  What a
+scrape shows for histograms is that map. -/
+
+open MetricsVerif.PromIdle in
+/-- **prom_base_sim.**  Whatever the exporter does (register, update, `record_many`, upkeep, render), its
+    registry and its `Recency` are in the state the `Recency` model reaches on the corresponding operations
+    (`record_many(v, n)` = register + n × `record`; upkeep = nothing; render = one observation).  Hence every
+    theorem above (`dropped_iff`, `kept_if_updated`, `kept_within_timeout`, `never_dropped_*`,
+    `fresh_after_drop`) holds of the exporter's registry, for every `key_to_parts` and all global labels. -/
+theorem prom_base_sim (parts : Key → DKey) (cfg : Cfg) (ops : List POp) :
+    (prun parts (PromIdle.init cfg) ops).base = after cfg (ops.flatMap POp.toOps) :=
+  prun_base parts _ ops
+
+open MetricsVerif.PromIdle in
+/-- **prom_dropped_leaves_output.**  In any state of the exporter: if a render removes a registered histogram
+    from the registry (which happens exactly in the situation of `dropped_iff`), then after that render the
+    exporter's `distributions` hold nothing under `key_to_parts(key)` — the histogram is gone from the scrape
+    output, whatever the global labels, and whatever else shares its family.  Consequently a later
+    re-registration starts from an absent distribution (`drainOne` then creates it from zero). -/
+theorem prom_dropped_leaves_output (parts : Key → DKey) (ps : PSt) (hk : ps.base.cfg.byKind = true) (key : Key)
+    (hreg : registered ps.base (.histogram, key))
+    (hdrop : ¬ registered (PromIdle.render parts ps).base (.histogram, key)) :
+    lookup (PromIdle.render parts ps).dists (parts key) = none := by
+  have hn : lookup (PromIdle.render parts ps).base.metrics (Kind.histogram, key) = none := by
+    unfold registered at hdrop
+    cases h : lookup (PromIdle.render parts ps).base.metrics (Kind.histogram, key) with
+    | none => rfl
+    | some m => rw [h] at hdrop; exact absurd rfl hdrop
+  -- the counter and gauge loops leave the histogram registered
+  have h1 : lookup (drain parts (afterCG ps)).base.metrics (Kind.histogram, key) = lookup ps.base.metrics (.histogram, key) := by
+    rw [drain_base]
+    show (view (observeKind (observeKind ps.base .counter) .gauge) (.histogram, key)).1 = (view ps.base (.histogram, key)).1
+    rw [view_observeKind_other _ (by rw [observeKind_cfg]; exact hk) .gauge _ (by simp),
+        view_observeKind_other _ hk .counter _ (by simp)]
+  exact foldl_visitH_drop parts _ (drain parts (afterCG ps)) (.histogram, key) (by rw [h1]; exact hreg) hn
+
+/-- the same, for every history of the exporter from a fresh recorder -/
+theorem prom_expired_histogram_leaves_output (parts : Key → PromIdle.DKey) (cfg : Cfg) (hk : cfg.byKind = true)
+    (ops : List PromIdle.POp) (key : Key)
+    (hreg : registered (PromIdle.prun parts (PromIdle.init cfg) ops).base (.histogram, key))
+    (hdrop : ¬ registered (PromIdle.prun parts (PromIdle.init cfg) (ops ++ [.render])).base (.histogram, key)) :
+    lookup (PromIdle.prun parts (PromIdle.init cfg) (ops ++ [.render])).dists (parts key) = none := by
+  have e : PromIdle.prun parts (PromIdle.init cfg) (ops ++ [.render])
+      = PromIdle.render parts (PromIdle.prun parts (PromIdle.init cfg) ops) := by
+    simp [PromIdle.prun, PromIdle.pstep]
+  rw [e] at hdrop ⊢
+  apply prom_dropped_leaves_output parts _ _ key hreg hdrop
+  rw [prom_base_sim, after_cfg]; exact hk
+
+/-- all keys under one family / label set: what `key_to_parts` does to `hst.x` and `hst_x` -/
+def collideParts : Key → PromIdle.DKey := fun _ => (['h'], [])
+
+/-- **FINDING, kernel-evaluated (replayed on the real exporter by the harness: `prom-collision`).**
+    `distributions` is keyed by the *sanitised* name, so two histograms whose `key_to_parts` coincide share
+    one distribution.  When the idle one (`a`) expires, the shared distribution is removed although `b` is
+    alive and was updated since the previous render: `b`'s full value is 3 samples summing to 8 (registry side,
+    never dropped), the output shows 1 sample, sum 2.  So "kept with its full value" fails in the output for
+    colliding names; `prom_dropped_leaves_output` (which needs no injectivity) is the part that holds. -/
+theorem prom_collision_wipes_live :
+    let cfg : Cfg := { mask := 4, timeout := some 2 }
+    let ops : List PromIdle.POp :=
+      [.upd .histogram ['a'] (.record 7), .upd .histogram ['b'] (.record 5), .render, .adv 3,
+       .upd .histogram ['b'] (.record 1), .render, .upd .histogram ['b'] (.record 2), .render]
+    let s := PromIdle.prun collideParts (PromIdle.init cfg) ops
+    lookup s.base.metrics (.histogram, ['b']) = some ⟨3, .h 3 8⟩ ∧
+    lookup s.dists (collideParts ['b']) = some (1, 2) := by
+  decide
+
+/-- non-vacuity (injective parts, a "global label" in every label set): the idle histogram is dropped and
+    leaves the output; recorded again it shows the new sample only; `record_many(9, 0)` is not an update;
+    a histogram drained by upkeep still expires -/
+example :
+    let cfg : Cfg := { mask := 7, timeout := some 2 }
+    let parts : Key → PromIdle.DKey := fun k => (k, [['e', '=', 'p']])
+    let h : List PromIdle.POp := [.upd .histogram ['a'] (.record 5), .recMany ['a'] 6 2, .upkeep, .render, .adv 3]
+    lookup (PromIdle.prun parts (PromIdle.init cfg) (h ++ [.recMany ['a'] 9 0])).dists (parts ['a']) = some (3, 17) ∧
+    registered (PromIdle.prun parts (PromIdle.init cfg) (h ++ [.recMany ['a'] 9 0])).base (.histogram, ['a']) ∧
+    ¬ registered (PromIdle.prun parts (PromIdle.init cfg) (h ++ [.recMany ['a'] 9 0, .render])).base (.histogram, ['a']) ∧
+    lookup (PromIdle.prun parts (PromIdle.init cfg) (h ++ [.render])).dists (parts ['a']) = none ∧
+    lookup (PromIdle.prun parts (PromIdle.init cfg) (h ++ [.render, .upd .histogram ['a'] (.record 1), .render])).dists
+      (parts ['a']) = some (1, 1) := by
+  decide
 
 end MetricsVerif.C12
